@@ -41,4 +41,4 @@ def check(run):
                           H + 'seq_attribute_to_map'])
     transforms_bounded(run)
     from checks.main import nodecross_bounded
-    nodecross_bounded(run)
+    nodecross_bounded(run, only=['Node.unders_to_dashes_in_keys', 'Node.dashes_to_unders_in_keys', 'Node.map_attribute_to_index', 'Node.index_attribute_to_map', 'Node.seq_attribute_to_map'])
